@@ -40,27 +40,7 @@ pub fn tokenize(source: &str, file_id: &FileId) -> (Vec<Token>, Vec<Diagnostic>)
                     text: lexer.slice().into(),
                 });
 
-                match token_type {
-                    TokenType::Newline => {
-                        line += 1;
-                        col = 0;
-                    }
-                    TokenType::Comment => {
-                        // Comments can have new lines embedded
-                        for c in lexer.slice().chars() {
-                            match c {
-                                '\n' => {
-                                    line += 1;
-                                    col = 0;
-                                }
-                                _ => {
-                                    col += 0;
-                                }
-                            }
-                        }
-                    }
-                    _ => col += lexer.span().len(),
-                }
+                (line, col) = advance(line, col, lexer.slice());
             }
             Err(_) => {
                 let span = lexer.span();
@@ -78,12 +58,28 @@ pub fn tokenize(source: &str, file_id: &FileId) -> (Vec<Token>, Vec<Diagnostic>)
                             col + 1,
                         ),
                     ),
-                ))
+                ));
+                (line, col) = advance(line, col, lexer.slice());
             }
         }
     }
 
     (tokens, diagnostics)
+}
+
+/// Returns the line and column (in bytes) after the text, given the line and
+/// column where the text begins. Every piece of source text advances the
+/// position, including comments and text that is not a valid token.
+fn advance(mut line: usize, mut col: usize, text: &str) -> (usize, usize) {
+    for c in text.chars() {
+        if c == '\n' {
+            line += 1;
+            col = 0;
+        } else {
+            col += c.len_utf8();
+        }
+    }
+    (line, col)
 }
 
 #[cfg(test)]
